@@ -241,6 +241,21 @@ func (p *ParagraphReader) Next() (*Paragraph, error) {
 	}
 	var lastKey string
 
+	/* The continuation lines of lastKey are collected here and put into
+	 * the paragraph when the field is over: appending each of them to the
+	 * value as it stood copied the whole value once per line, which for a
+	 * field of some hundred thousand lines (a few KiB of gzip will do)
+	 * does not come to an end. */
+	var folded strings.Builder
+	folding := false
+	flush := func() {
+		if folding {
+			paragraph.Values[lastKey] = folded.String()
+			folded.Reset()
+			folding = false
+		}
+	}
+
 	for {
 		line, err := p.reader.ReadString('\n')
 		if err == io.EOF && line != "" {
@@ -251,6 +266,7 @@ func (p *ParagraphReader) Next() (*Paragraph, error) {
 		if err == io.EOF {
 			/* Let's return the parsed paragraph if we have it */
 			if len(paragraph.Order) > 0 {
+				flush()
 				return &paragraph, nil
 			}
 			/* Else, let's go ahead and drop the EOF out raw */
@@ -266,6 +282,7 @@ func (p *ParagraphReader) Next() (*Paragraph, error) {
 			}
 			/* Lines are ended by a blank line; so we're able to go ahead
 			 * and return this guy as-is. All set. Done. Finished. */
+			flush()
 			return &paragraph, nil
 		}
 
@@ -303,14 +320,18 @@ func (p *ParagraphReader) Next() (*Paragraph, error) {
 				line = ""
 			}
 
-			if paragraph.Values[lastKey] == "" {
-				paragraph.Values[lastKey] = line + "\n"
-			} else {
-				if !strings.HasSuffix(paragraph.Values[lastKey], "\n") {
-					paragraph.Values[lastKey] = paragraph.Values[lastKey] + "\n"
+			if !folding {
+				/* the first line of the field, with a newline after it
+				 * unless there is nothing on it */
+				first := paragraph.Values[lastKey]
+				folded.WriteString(first)
+				if first != "" && !strings.HasSuffix(first, "\n") {
+					folded.WriteString("\n")
 				}
-				paragraph.Values[lastKey] = paragraph.Values[lastKey] + line + "\n"
+				folding = true
 			}
+			folded.WriteString(line)
+			folded.WriteString("\n")
 			continue
 		}
 
@@ -334,6 +355,7 @@ func (p *ParagraphReader) Next() (*Paragraph, error) {
 		 * its front: a form feed or a stray \r in front of a `#` is part of
 		 * an odd name, and must not turn it into a comment when it's
 		 * written back out */
+		flush()
 		lastKey = strings.TrimRightFunc(els[0], unicode.IsSpace)
 		value := strings.TrimSpace(els[1])
 
